@@ -282,16 +282,17 @@ Fixpoint prefixes_ok (hl0 : list (string * list string)) (specs : list cspec) (r
                  ~ In (cs_name c) (map fst hl0) /\ prefixes_ok (hl0 ++ [spec_h c]) rest rank
   end.
 Theorem define_all_wwf rank fuel specs : forall w w',
-  wwf w -> prefixes_ok (hier w) specs rank -> define_all fuel w specs = Some w' -> wwf w'.
+  wwf w -> prefixes_ok (hier w) specs rank -> define_all fuel w specs = Some w' -> wwf w' /\ hier w' = (hier w ++ map spec_h specs)%list.
 Proof.
   induction specs as [|c rest IH]; intros w w' W Hp; cbn [define_all].
-  - intros H; inversion H; subst; exact W.
+  - intros H; inversion H; subst. split; [exact W|]. cbn. rewrite app_nil_r. reflexivity.
   - destruct Hp as (Hh & Hrank & Hn & Hrest).
     destruct (define_class fuel w c) as [w1|] eqn:Ed; [|discriminate].
     destruct (define_class_wwf rank fuel w c w1 W) as (W1 & Hh1 & Hn1); try assumption.
     + rewrite names_hier. exact Hn.
     + intros x Hx. apply Hrank. rewrite <- names_hier. exact Hx.
-    + intros H. eapply IH; [exact W1| |exact H]. rewrite Hh1. exact Hrest.
+    + intros H. destruct (IH w1 w' W1) as (A & B); [rewrite Hh1; exact Hrest|exact H|].
+      split; [exact A|]. rewrite B, Hh1, <- app_assoc. reflexivity.
 Qed.
 Lemma world0_wwf patchers : wwf (world0 patchers).
 Proof.
@@ -307,3 +308,6 @@ Qed.
 Theorem built_world_wwf rank fuel patchers specs w :
   prefixes_ok [] specs rank -> define_all fuel (world0 patchers) specs = Some w -> wwf w.
 Proof. intros Hp Hd. eapply define_all_wwf; [apply world0_wwf|exact Hp|exact Hd]. Qed.
+Theorem built_world_hier rank fuel patchers specs w :
+  prefixes_ok [] specs rank -> define_all fuel (world0 patchers) specs = Some w -> hier w = map spec_h specs.
+Proof. intros Hp Hd. destruct (define_all_wwf rank fuel specs (world0 patchers) w (world0_wwf patchers) Hp Hd) as [_ H]. exact H. Qed.
